@@ -20,6 +20,9 @@ class Module:
         self.classes = {n.name: n for n in self.tree.body if isinstance(n, ast.ClassDef)}
         self.functions = {n.name: n for n in self.tree.body if isinstance(n, ast.FunctionDef)}
         self.consts = {}
+        # module-level loggers (x = logging.getLogger(...)): calls on them have no effect on the program state
+        self.loggers = {n.targets[0].id for n in self.tree.body if isinstance(n, ast.Assign) and len(n.targets) == 1 and isinstance(n.targets[0], ast.Name)
+                        and isinstance(n.value, ast.Call) and isinstance(n.value.func, ast.Attribute) and n.value.func.attr == "getLogger"}
         self._eval_static()
 
     # -- literal constants and Enum classes are evaluated from the AST (pure, whitelisted node kinds only)
